@@ -1,3 +1,313 @@
 package main
 
-func arityMain(args []string) {}
+// c02 arity -repo DIR: re-derives, from the Go source, the table of built-in
+// functions that coq/C02/Arity.v contains: for every function with the
+// built-in signature (thread, *Builtin, args Tuple, kwargs []Tuple) the
+// argument-unpacking call it makes (minimum / maximum number of positional
+// arguments), the destination variables of interface type that stay nil when
+// an optional argument is absent, whether the body calls a method on them and
+// whether it compares them with nil first; and direct uses of args[i] together
+// with whether len(args) is tested.  Standard library only (go/parser, go/ast).
+import (
+	"flag"
+	"fmt"
+	"go/ast"
+	"go/parser"
+	"go/token"
+	"os"
+	"path/filepath"
+	"sort"
+	"strconv"
+	"strings"
+
+	"verifharness/internal/hx"
+)
+
+type arityVar struct {
+	Name     string `json:"name"`
+	Type     string `json:"type"`
+	Optional bool   `json:"optional"`
+	Iface    bool   `json:"iface"`    // interface-typed: nil when the argument is absent
+	Init     bool   `json:"init"`     // given a value before the unpack call
+	Deref    bool   `json:"deref"`    // a method is called on it
+	NilCheck bool   `json:"nilcheck"` // compared with nil somewhere in the body
+}
+
+type arityRow struct {
+	File     string     `json:"file"`
+	Line     int        `json:"line"`
+	Func     string     `json:"func"`
+	Unpack   string     `json:"unpack"` // positional | named | none
+	Min      int        `json:"min"`
+	Max      int        `json:"max"`
+	Vars     []arityVar `json:"vars"`
+	ArgIndex int        `json:"argindex"` // 1 + largest constant i in args[i], 0 if none
+	LenCheck bool       `json:"lencheck"` // len(args) appears in the body
+}
+
+var arityFiles = []string{"starlark/library.go", "lib/json/json.go", "lib/math/math.go", "lib/time/time.go", "starlarkstruct/struct.go", "starlarkstruct/module.go"}
+
+var ifaceTypes = map[string]bool{"Value": true, "Iterable": true, "Callable": true, "Sequence": true, "Indexable": true, "Mapping": true,
+	"IterableMapping": true, "Iterator": true, "HasAttrs": true, "Sliceable": true, "Comparable": true}
+
+func typeString(e ast.Expr) string {
+	switch t := e.(type) {
+	case *ast.Ident:
+		return t.Name
+	case *ast.SelectorExpr:
+		return typeString(t.X) + "." + t.Sel.Name
+	case *ast.StarExpr:
+		return "*" + typeString(t.X)
+	case *ast.ArrayType:
+		return "[]" + typeString(t.Elt)
+	case *ast.MapType:
+		return "map[" + typeString(t.Key) + "]" + typeString(t.Value)
+	case *ast.InterfaceType:
+		return "interface{}"
+	case *ast.FuncType:
+		return "func"
+	}
+	return fmt.Sprintf("%T", e)
+}
+
+func isBuiltinSig(ft *ast.FuncType) (argsName string, ok bool) {
+	if ft.Params == nil {
+		return "", false
+	}
+	var types []string
+	var names []string
+	for _, f := range ft.Params.List {
+		n := len(f.Names)
+		if n == 0 {
+			n = 1
+		}
+		for k := 0; k < n; k++ {
+			types = append(types, typeString(f.Type))
+			if k < len(f.Names) {
+				names = append(names, f.Names[k].Name)
+			} else {
+				names = append(names, "_")
+			}
+		}
+	}
+	if len(types) != 4 {
+		return "", false
+	}
+	strip := func(s string) string { return strings.Replace(s, "starlark.", "", 1) }
+	if strip(types[0]) != "*Thread" || strip(types[1]) != "*Builtin" || strip(types[2]) != "Tuple" || strip(types[3]) != "[]Tuple" {
+		return "", false
+	}
+	return names[2], true
+}
+
+func analyseBuiltin(fset *token.FileSet, rel, name string, ft *ast.FuncType, body *ast.BlockStmt) arityRow {
+	argsName, _ := isBuiltinSig(ft)
+	row := arityRow{File: rel, Line: fset.Position(body.Pos()).Line, Func: name, Unpack: "none"}
+	varType := map[string]string{}
+	inited := map[string]bool{}
+	var unpackPos token.Pos
+	var targets []string
+	var optional []bool
+	// declarations and the unpack call
+	ast.Inspect(body, func(n ast.Node) bool {
+		switch x := n.(type) {
+		case *ast.FuncLit:
+			if _, ok := isBuiltinSig(x.Type); ok {
+				return false // analysed separately
+			}
+		case *ast.GenDecl:
+			for _, sp := range x.Specs {
+				if vs, ok := sp.(*ast.ValueSpec); ok {
+					for _, id := range vs.Names {
+						if vs.Type != nil {
+							varType[id.Name] = typeString(vs.Type)
+						}
+						if len(vs.Values) > 0 {
+							inited[id.Name] = true
+							if vs.Type == nil {
+								varType[id.Name] = "inferred"
+							}
+						}
+					}
+				}
+			}
+		case *ast.AssignStmt:
+			if unpackPos == token.NoPos || x.Pos() < unpackPos {
+				for _, l := range x.Lhs {
+					if id, ok := l.(*ast.Ident); ok {
+						inited[id.Name] = true
+						if _, known := varType[id.Name]; !known {
+							varType[id.Name] = "inferred"
+						}
+					}
+				}
+			}
+		case *ast.CallExpr:
+			fn := typeString(x.Fun)
+			fn = strings.TrimPrefix(fn, "starlark.")
+			if row.Unpack != "none" {
+				break
+			}
+			switch fn {
+			case "UnpackPositionalArgs", "unpackPositionalArgsNoEscape":
+				if len(x.Args) >= 4 {
+					row.Unpack = "positional"
+					unpackPos = x.Pos()
+					if bl, ok := x.Args[3].(*ast.BasicLit); ok {
+						row.Min, _ = strconv.Atoi(bl.Value)
+					} else {
+						row.Min = -1
+					}
+					for i, a := range x.Args[4:] {
+						targets = append(targets, targetName(a))
+						optional = append(optional, i >= row.Min)
+					}
+					row.Max = len(x.Args) - 4
+				}
+			case "UnpackArgs", "unpackArgsNoEscape":
+				if len(x.Args) >= 3 {
+					row.Unpack = "named"
+					unpackPos = x.Pos()
+					opt := false
+					for i := 3; i+1 < len(x.Args); i += 2 {
+						pn := ""
+						if bl, ok := x.Args[i].(*ast.BasicLit); ok {
+							pn, _ = strconv.Unquote(bl.Value)
+						}
+						if strings.HasSuffix(pn, "?") {
+							opt = true
+						}
+						if !opt {
+							row.Min++
+						}
+						row.Max++
+						targets = append(targets, targetName(x.Args[i+1]))
+						optional = append(optional, opt)
+					}
+					if len(x.Args) > 1 {
+						if id, ok := x.Args[1].(*ast.Ident); ok && id.Name == "nil" {
+							// positional arguments not accepted at all (keyword-only)
+							row.Unpack = "named-kwonly"
+						}
+					}
+				}
+			}
+		}
+		return true
+	})
+	// uses
+	deref := map[string]bool{}
+	nilcheck := map[string]bool{}
+	ast.Inspect(body, func(n ast.Node) bool {
+		switch x := n.(type) {
+		case *ast.FuncLit:
+			if _, ok := isBuiltinSig(x.Type); ok {
+				return false
+			}
+		case *ast.CallExpr:
+			if se, ok := x.Fun.(*ast.SelectorExpr); ok {
+				if id, ok := se.X.(*ast.Ident); ok {
+					deref[id.Name] = true
+				}
+			}
+			if id, ok := x.Fun.(*ast.Ident); ok && id.Name == "len" && len(x.Args) == 1 {
+				if a, ok := x.Args[0].(*ast.Ident); ok && a.Name == argsName {
+					row.LenCheck = true
+				}
+			}
+		case *ast.BinaryExpr:
+			if x.Op == token.EQL || x.Op == token.NEQ {
+				l, lok := x.X.(*ast.Ident)
+				r, rok := x.Y.(*ast.Ident)
+				if lok && rok {
+					if r.Name == "nil" {
+						nilcheck[l.Name] = true
+					}
+					if l.Name == "nil" {
+						nilcheck[r.Name] = true
+					}
+				}
+			}
+		case *ast.IndexExpr:
+			if id, ok := x.X.(*ast.Ident); ok && id.Name == argsName && argsName != "_" {
+				if bl, ok := x.Index.(*ast.BasicLit); ok {
+					if k, err := strconv.Atoi(bl.Value); err == nil && k+1 > row.ArgIndex {
+						row.ArgIndex = k + 1
+					}
+				} else if row.ArgIndex == 0 {
+					row.ArgIndex = 1 // non-constant index
+				}
+			}
+		case *ast.RangeStmt:
+			if id, ok := x.X.(*ast.Ident); ok && id.Name == argsName {
+				row.LenCheck = true // ranging over args is always in bounds
+			}
+		}
+		return true
+	})
+	for i, t := range targets {
+		ty := varType[t]
+		base := strings.TrimPrefix(ty, "starlark.")
+		row.Vars = append(row.Vars, arityVar{Name: t, Type: ty, Optional: optional[i], Iface: ifaceTypes[base], Init: inited[t], Deref: deref[t], NilCheck: nilcheck[t]})
+	}
+	return row
+}
+
+func targetName(e ast.Expr) string {
+	if u, ok := e.(*ast.UnaryExpr); ok && u.Op == token.AND {
+		return typeString(u.X)
+	}
+	return typeString(e)
+}
+
+func arityRows(repo string) ([]arityRow, error) {
+	var rows []arityRow
+	fset := token.NewFileSet()
+	for _, rel := range arityFiles {
+		f, err := parser.ParseFile(fset, filepath.Join(repo, rel), nil, 0)
+		if err != nil {
+			return nil, err
+		}
+		for _, d := range f.Decls {
+			fd, ok := d.(*ast.FuncDecl)
+			if !ok || fd.Body == nil {
+				continue
+			}
+			if _, ok := isBuiltinSig(fd.Type); ok {
+				rows = append(rows, analyseBuiltin(fset, rel, fd.Name.Name, fd.Type, fd.Body))
+			}
+			k := 0
+			ast.Inspect(fd.Body, func(n ast.Node) bool {
+				if fl, ok := n.(*ast.FuncLit); ok {
+					if _, ok := isBuiltinSig(fl.Type); ok {
+						k++
+						rows = append(rows, analyseBuiltin(fset, rel, fmt.Sprintf("%s#%d", fd.Name.Name, k), fl.Type, fl.Body))
+					}
+				}
+				return true
+			})
+		}
+	}
+	sort.SliceStable(rows, func(i, j int) bool {
+		if rows[i].File != rows[j].File {
+			return rows[i].File < rows[j].File
+		}
+		return rows[i].Func < rows[j].Func
+	})
+	return rows, nil
+}
+
+func arityMain(args []string) {
+	fs := flag.NewFlagSet("arity", flag.ExitOnError)
+	repo := fs.String("repo", "/repo", "")
+	fs.Parse(args)
+	rows, err := arityRows(*repo)
+	if err != nil {
+		fmt.Fprintln(os.Stderr, err)
+		os.Exit(1)
+	}
+	for _, r := range rows {
+		hx.Emit(map[string]any{"kind": "arity", "row": r})
+	}
+	hx.Flush()
+}
